@@ -106,9 +106,11 @@ def judge(plan, tr: P.Trace):
         if lz(z):
             probes["lz_shared_secret"] = 1
         if rk.secret_alg == "DH":
-            kl, _p, _g, y = gkdi.unpack_dh_key(ki)
+            kl, p_, _g, y = gkdi.unpack_dh_key(ki)
             if y >> (8 * (kl - 1)) == 0:
                 probes["lz_public_value"] = 1
+            if kl > (p_.bit_length() + 7) // 8:
+                probes["key_length_wider_than_modulus"] = 1
         else:
             _c, kl, x, y = gkdi.unpack_ecdh_key(ki)
             if x >> (8 * (kl - 1)) == 0:
@@ -147,7 +149,7 @@ class C03(common.Check):
     components = {"client": "real (new_kek / get_kek / compute_kek / compute_public_key through the public API)", "entropy": "simulated, scripted draws",
                   "DC": "model (RefDC, public-key and seed replies)", "independent implementation": "ref.gkdi + ref.ec (own P-256/P-384 arithmetic, pow() DH, hashlib KDFs)"}
     assumptions = ["reference calibrated on the 16 Windows blobs (gate before every run)", "hash x algorithm sweep is workload parameterisation"]
-    required_fired = ("lz_shared_secret", "lz_public_value", "lz_coord_x", "lz_coord_y", "lz_nonce", "agree_DH_pub", "agree_ECDH_P256_pub", "agree_ECDH_P384_pub", "agree_DH_nonce")
+    required_fired = ("key_length_wider_than_modulus", "lz_shared_secret", "lz_public_value", "lz_coord_x", "lz_coord_y", "lz_nonce", "agree_DH_pub", "agree_ECDH_P256_pub", "agree_ECDH_P384_pub", "agree_DH_nonce")
 
     def cases(self, tier, seed):
         rng = prng.stream(seed, "C03")
@@ -163,6 +165,8 @@ class C03(common.Check):
         for i in range(n_small):
             kl = rng.choice((2, 2, 3, 3, 4, 5, 8))
             grp = small_group(kl, i % 40)
+            if i % 3 == 0:
+                grp = [grp[0] + rng.choice((1, 2, 5)), grp[1], grp[2]]  # key_length padded wider than the modulus (fixed-width fields keep leading zeros)
             priv_len = rng.choice((kl * 8, kl * 8 - 3, kl * 8 - 1, max(8, kl * 8 - 8), 9, 12))
             spec = [52 + i % 3, offline.HASHES[i % 4], "DH", {"dh": grp, "priv_len": priv_len}]
             out.append(base_plan(spec, rng.getrandbits(31), "pub", rng.choice(("sync", "async")), rng.choice(("sync", "async"))))
